@@ -202,6 +202,11 @@ def handle (toks : List String) (impl : String) : Verdict :=
       let oracle := if impl == spec then "ok" else s!"fail:{firstDiff ops specOuts (impl.splitOn ";")}"
       { model, oracle, branch := frameBranch fields ops }
     | _, _, _ => bad "frame"
+  | ["frame.adapt", _, _, _] =>
+    -- self-consistency of the iterator adaptors with plain next()/next_back() loops (which the
+    -- `it:`/`into:` ops tie to the model); nothing to compute on the model side
+    { model := "ok", oracle := if impl == "ok" then "ok" else if impl == "PANIC" then "fail:panic" else s!"fail:iterator-adaptor-{impl}",
+      branch := "adapt" }
   | ["resp.ops", ns, es, ps] =>
     match ns.toNat?, (if es == "0" then some false else if es == "1" then some true else none),
           parsePat (if ps == "_" then "" else ps) with
